@@ -9,12 +9,14 @@
 
    Trusted primitive: `dstep` stands for brotli::BrotliDecompressStream on a BrotliState (the translator checks
    that it is called with available_in = the length of the input slice and input_offset = output_offset = 0). *)
+From MLA Require Import Limit.
 From MLA Require Import Base Stream CompFailSafe.
 From MLAGen Require Src3c.
 From Coq Require Import ZifyBool ZifyNat ZifyN.
 Open Scope N_scope.
 
 Section Tie.
+  Context {LIM : Limit}.
   Variables BLOCK FSBUF : N.
   Variable dstate : Type.
   Variable dinit : dstate.
